@@ -196,7 +196,7 @@ pub fn grammar(full: bool) -> Vec<String> {
         g.insert(format!("CAP LS {}", x));
         g.insert(format!("CONNECT a.b {}", x));
     }
-    for l in ["MODE #pre", "MODE #pre +b", "MODE #pre -b", "MODE #pre +e", "MODE #pre +I", "MODE #pre b", "MODE #pre -b evil*!*@*", "MODE #pre +b evil*!*@*", "MODE #pre -e evil1!*@*", "MODE #pre -o me", "MODE #pre -v bob", "MODE #pre +o ghost", "TOPIC #pre", "TOPIC #pre :", "NAMES #pre", "LIST #pre", "WHO #pre", "PART #pre", "JOIN #pre", "KICK #pre bob", "KICK #pre me", "INVITE zed #pre", "PRIVMSG @#pre :x", "PRIVMSG +#pre :x", "PRIVMSG #pre :x"] {
+    for l in ["MODE #pre", "MODE #pre +b", "MODE #pre -b", "MODE #pre +e", "MODE #pre +I", "MODE #pre b", "MODE #pre -b evil*!*@*", "MODE #pre +b evil*!*@*", "MODE #pre -e evil1!*@*", "MODE #pre -o me", "MODE #pre -v bob", "MODE #pre +o ghost", "TOPIC #pre", "TOPIC #pre :", "NAMES #pre", "LIST #pre", "WHO #pre", "PART #pre", "JOIN #pre", "KICK #pre bob", "KICK #pre me", "INVITE zed #pre", "PRIVMSG @#pre :x", "PRIVMSG +#pre :x", "PRIVMSG #pre :x", "PART #solo", "KICK #solo me", "PART #solo,#pre", "JOIN #solo", "NAMES #solo"] {
         g.insert(l.to_string());
     }
     for l in ["CAP LS 302", "CAP LIST", "CAP REQ :multi-prefix", "CAP REQ :foo", "CAP REQ", "CAP END", "CAP", "OPER op oppw", "OPER op bad", ":src PRIVMSG bob :x", ":a!b PING x", ":a@b!c PING x", ": PING x", ":", " ", "", "PING", "   PING   x   ", "STATS u", "STATS m", "STATS x", "STATS uu", "HELP", "HELP MAIN", "HELP NOPE", "PASS x", "PASS :", "USER", "USER a b c", "USER a.b 0 * :r", "USER #a 0 * :r", "NICK #a", "NICK a:b", "LINKS a.b *.c", "LINKS a b", "SQUIT other.net :x", "TIME a.b", "TIME ab", "MOTD a.b", "VERSION *", "ADMIN x"] {
@@ -272,6 +272,11 @@ fn session_scn(sess: Sess, full: bool, pairs: bool) -> ChatScn {
             operators: vec!["me".into(), "ghost".into()],
             voices: vec!["bob".into(), "me".into()],
             ..Default::default()
+        }, crate::scn::CfgChan {
+            // a configured channel the actor is alone on: leaving it empties it, and it stays
+            name: "#solo".into(),
+            operators: vec!["me".into()],
+            ..Default::default()
         }],
         ..Default::default()
     };
@@ -322,6 +327,7 @@ fn session_scn(sess: Sess, full: bool, pairs: bool) -> ChatScn {
     s.prelude.push((2, "JOIN #c".into()));
     if actor_registered {
         s.prelude.push((0, "JOIN #pre".into()));
+        s.prelude.push((0, "JOIN #solo".into()));
     }
     s.prelude.push((1, "JOIN #pre".into()));
     let lines = grammar(full);
@@ -566,6 +572,32 @@ fn still_serving(_scn: &ChatScn, w: &mut World, _pre: &View, obs: &StepObs, post
                 });
                 if still_members && !ls.iter().any(|l| l.contains("bystander-check")) {
                     out.push(finding("bystander-deprived", format!("bystander did not receive a channel message after {:?}: {:?}", obs.act.render(), ls)));
+                }
+            }
+        }
+    }
+    // a bystander looks at the actor and at the actor's peer: what the line left behind
+    // must not bring down somebody else's handler
+    if w.conns[2].life == Life::Live && post.registered(2) {
+        let mut targets: Vec<String> = vec![];
+        for slot in [actor, 1usize] {
+            if let Some(n) = post.nick(slot) {
+                // only names a WHOIS parameter can carry (the grammar also makes nicknames with blanks)
+                let plain = !n.is_empty() && n.chars().all(|c| c.is_ascii_alphanumeric());
+                if plain && post.m.users.contains_key(n) && !targets.contains(&n.to_string()) {
+                    targets.push(n.to_string());
+                }
+            }
+        }
+        for t in targets {
+            w.take_lines(2);
+            match w.send(2, &format!("WHOIS {}", t)) {
+                Err(e) => out.push(finding("stalled", format!("bystander stalled on WHOIS {} after {:?}: {}", t, obs.act.render(), e.0))),
+                Ok(()) => {
+                    let ls = w.take_lines(2);
+                    if w.conns[2].life == Life::Live && !ls.iter().any(|l| l.contains(" 318 ")) {
+                        out.push(finding("bystander-deprived", format!("bystander's WHOIS {} was not answered after {:?}: {:?}", t, obs.act.render(), ls)));
+                    }
                 }
             }
         }
